@@ -17,6 +17,9 @@ VERIF = os.path.dirname(os.path.dirname(os.path.abspath(__file__)))
 SPEC = os.path.join(VERIF, "spec")
 HARNESS = os.path.join(VERIF, "harness")
 EVID = os.path.join(VERIF, "evidence")
+if os.environ.get("VERIF_REPO"):
+    # a run against a scratch copy of the library (seeded changes) never touches the committed evidence
+    EVID = os.environ.get("VERIF_EVIDENCE_DIR") or os.path.join(os.environ["VERIF_REPO"].rstrip("/") + "-evidence")
 TLA_CP = "/opt/veriftools/tla/tla2tools.jar:/opt/veriftools/tla/CommunityModules-deps.jar"
 
 
@@ -53,6 +56,12 @@ class Ctx:
         self.vh = None
         self._nreplay = 0
         self.findings = load_findings()
+        # the specification as it is when the check starts (edits during a run do not mix versions)
+        self.spec = os.path.join(self.scratch, "spec-snapshot")
+        os.makedirs(self.spec)
+        for f in os.listdir(SPEC):
+            if f.endswith(".tla") or f.endswith(".cfg"):
+                shutil.copy(os.path.join(SPEC, f), self.spec)
 
     # ---- housekeeping -------------------------------------------------------------------------
     def cleanup(self):
@@ -117,11 +126,11 @@ class Ctx:
             extra=(), deadlock=False, coverage=False, seed=None, dfs=False, workdir=None, quiet=False):
         """Run TLC on spec/<module>.tla with spec/<cfg> in a scratch copy. Returns a dict."""
         wd = workdir or tempfile.mkdtemp(prefix="tlc-", dir=self.scratch)
-        for f in os.listdir(SPEC):
+        for f in os.listdir(self.spec):
             if f.endswith(".tla"):
-                shutil.copy(os.path.join(SPEC, f), wd)
+                shutil.copy(os.path.join(self.spec, f), wd)
         # cfg: a file name under spec/ or an absolute path of a generated configuration
-        src = cfg if os.path.isabs(cfg) else os.path.join(SPEC, cfg)
+        src = cfg if os.path.isabs(cfg) else os.path.join(self.spec, cfg)
         cfg = os.path.basename(cfg)
         if os.path.abspath(src) != os.path.abspath(os.path.join(wd, cfg)):
             shutil.copy(src, os.path.join(wd, cfg))
@@ -218,6 +227,9 @@ class Ctx:
     def violation(self, key, what, replay_obj):
         """Report a violation reproduced against the real code. `key` identifies the failing input
         class / call site; a key listed as status=known in known_findings.json is a KNOWN-FINDING."""
+        if "HARNESS verifharness/" in key or "HARNESS verifharness/" in what:
+            # the panic was raised in harness code that the library called back: the harness is at fault
+            raise Inconclusive("panic raised inside the harness, not the library: %s :: %s" % (key, what[:500]))
         for f in self.findings:
             if f["property"] == self.prop and f.get("status") == "known" and key_matches(f["key"], key):
                 if f["key"] not in self.known_printed:
